@@ -272,8 +272,6 @@ def known_region(B):
         if (g.startswith('p1.0-') or g.startswith('pinf-')) and \
                 ('-cconst' in g or '-carray' in g):
             return 'C08-K3'
-        if r.get('nuc') == 'wide':
-            return 'C08-K4'
         if r.get('linneg'):
             return 'C08-K6'
     if B.cls == 'rightscal' and B.children[0].f.is_linear and any(
@@ -837,12 +835,9 @@ RULES = {'leftscal', 'rightscal', 'rightvec', 'scalarsum', 'translated',
 
 
 def _huber_prox_known(B):
-    """Huber's proximal crashes on vector fields and on array-weighted
-    spaces (C07's finding / root cause F25); the Moreau clause reports that
-    under its own signature."""
-    return any('huber' in b.region and
-               (b.region['huber'].startswith('vec') or
-                'array' in b.region['huber'])
+    """Huber's proximal crashes on vector fields (C07's finding F11b); the
+    Moreau clause reports that under its own signature."""
+    return any('huber' in b.region and b.region['huber'].startswith('vec')
                for b in B.nodes())
 
 
